@@ -224,6 +224,18 @@ func c10Run(t *testing.T, c *choice.Stream, r *Result, opt RunOpt, forced *c10Fo
 			useDeadline, gateName, silence = false, "time", false
 			pScript = sc.afterHandshake
 		}
+		// a server that answers the hello with an exception (bad password, unknown
+		// database): the handshake fails by itself, and a cancellation that lands
+		// while its answer is being read still closes the connection and wins
+		helloRefused := gateName == "handshake" && forced == nil && c.Bool("hello.refused", 1, 3)
+		if helloRefused {
+			exc := (&SPacket{Kind: "exception", Exc: []refproto.Exception{{Code: 516, Name: "DB::Exception", Message: "DB::Exception: sim: Authentication failed"}}}).Encode(cf)
+			srv.Script = []simnet.Step{{Label: "hello-refused", OnPacket: func(*refproto.ClientPacket) []byte { return exc }}}
+			silence = false
+			r.Fire("hello_refused")
+		}
+		refusedLate := helloRefused && c.Bool("hello.refused.late", 2, 3)
+		readAtFire := 0
 		forcedCb, forcedJ := "", 0
 		if forced != nil {
 			useDeadline = false
@@ -267,6 +279,7 @@ func c10Run(t *testing.T, c *choice.Stream, r *Result, opt RunOpt, forced *c10Fo
 			fired = true
 			firedStep = e.Sim.Step
 			firedAt = e.Sim.Now()
+			readAtFire = conn.ReadLen()
 			e.Sim.SetFair()
 			cancel()
 		}
@@ -348,6 +361,9 @@ func c10Run(t *testing.T, c *choice.Stream, r *Result, opt RunOpt, forced *c10Fo
 					case "time":
 						return e.Sim.Now() >= cancelAtTime
 					case "handshake":
+						if helloRefused && refusedLate {
+							return conn.Enq() > 0 // the answer is on its way or waiting to be read
+						}
 						return true
 					case "bytes":
 						return conn.OutLen() >= kBytes
@@ -480,6 +496,15 @@ func c10Run(t *testing.T, c *choice.Stream, r *Result, opt RunOpt, forced *c10Fo
 			cl, err := ch.Connect(ctx, conn, cf.Options())
 			if err != nil {
 				isDone, at, _ := ctxDone()
+				if helloRefused && (!isDone || conn.ReadLen() == readAtFire) {
+					// the server's verdict alone, or a cancellation that came when the
+					// whole answer had been read already: it may have come after the
+					// handshake made up its mind
+					if !isDone && !ch.IsException(err) {
+						r.Violate("error-mismatch", "hello-refused-error", "the server refused the hello with an exception, Connect failed with %q", err)
+					}
+					return
+				}
 				if !isDone {
 					r.Harness("handshake failed without cancellation: %v", err)
 					return
